@@ -16,7 +16,7 @@ RULE = (
     "distinct by spec hash."
 )
 
-PROFILE = {"measures": ["dx"], "ids": "simple", "bessel": True}
+PROFILE = {"measures": ["dx"], "ids": "simple", "bessel": True, "p_qelement": 0.1, "p_transform": 0.25, "p_derivative": 0.1}
 
 
 def shard(shard, nshards, n, tier, seed):
@@ -43,8 +43,28 @@ def shard(shard, nshards, n, tier, seed):
     return res
 
 
+def replay_corpus(run_):
+    """Minimised past failures (corpus/C01/*.json: a spec, or {"spec":..., "scalar_type":...}) are re-evaluated first."""
+    import json
+
+    from ..common import VERIF
+
+    files = sorted((VERIF / "corpus" / PROP).glob("*.json"))
+    with scratch("vf-c01-corpus-") as wd:
+        for f in files:
+            doc = json.loads(f.read_text())
+            spec = doc.get("spec", doc)
+            for st in ([doc["scalar_type"]] if "scalar_type" in doc else ["float64", "float32"]):
+                o = formcheck.evaluate_form_spec(spec, wd / (f.stem + st), itypes=("cell",), scalar_type=st, prop=PROP)
+                run_.case(f"corpus:{f.stem}:{st}", o.status == "ok", classes=["corpus", "status:" + o.status])
+                if o.status == "violation":
+                    run_.fail(f"{PROP}:corpus:{f.stem}", f"corpus case {f.name} ({st}): {o.what}", o.replay, bucket=f"{PROP}:corpus:{f.stem}")
+    run_.extra["corpus_cases_replayed"] = len(files)
+
+
 def run(tier: str) -> int:
     run_ = Run(PROP, tier, "exploration", RULE)
+    replay_corpus(run_)
     n = 10 if tier == "quick" else 260
     nshards = 16
     for part in run_shards(shard, nshards, n=n, tier=tier, seed=verif_seed()):
